@@ -1,8 +1,8 @@
 /-
   C17 proofs: `MHD_str_remove_token_caseless_` never reads beyond `str_len` /
   `token_len`, never writes beyond `*buf_size`, terminates, and reports a size
-  within the buffer — for every input.  (The functional characterisation of
-  its output is carried by the correspondence run, see Props/C17.lean.)
+  within the buffer — for every input and **any** token, also an illegal one.
+  (For legal tokens the exact output is proved in `StrRmMain.lean`.)
 -/
 import Mhd.Proofs.StrPct
 
